@@ -329,7 +329,7 @@ Fixpoint dv_of_value (v : value) : dv :=
 (** ** item lengths: the count component of DeepHash (default parameters:
     ignore_private_variables=True skips the value of a str key starting with "__") *)
 Definition private_key (k : atom) : bool :=
-  match k with AStr (95%N :: 95%N :: _) => true | _ => false end.
+  match k with AStr (c1 :: c2 :: _) => N.eqb c1 95 && N.eqb c2 95 | _ => false end.
 
 Fixpoint count (v : value) : nat :=
   match v with
@@ -377,4 +377,171 @@ Definition rough_distance (r1 r2 : root) (cutoff : float) (delta : dv) : rres :=
     | LOk O => RInt0
     | LOk n => RFrac n (root_count r1 + root_count r2)
     end
+  end.
+(* to be appended to DistModel.v *)
+(* ===================================================================== *)
+(** * Part C: the delta view as positions in t1 / t2 (for the bound)      *)
+(* ===================================================================== *)
+(** A delta-view dict whose values are taken from the inputs: every entry
+    names positions (child-index paths) in t1 and/or t2; [dv_of_sdelta] builds
+    from them the dict _get_item_length walks.  The check compares it with the
+    dict the implementation really produced. *)
+Definition ipath := list nat.
+
+(* the children the diff can report (a dict entry under a private key "__x" is invisible) *)
+Definition kids (v : value) : list (option value) :=
+  match v with
+  | VAtom _ => []
+  | VList xs | VTuple xs => map Some xs
+  | VDict kvs => map (fun kv => if private_key (fst kv) then None else Some (snd kv)) kvs
+  | VSet xs | VFrozen xs => map (fun a => Some (VAtom a)) xs
+  end.
+Definition child (v : value) (i : nat) : option value :=
+  match nth_error (kids v) i with Some (Some c) => Some c | _ => None end.
+Fixpoint resolve (v : value) (p : ipath) : option value :=
+  match p with
+  | [] => Some v
+  | i :: r => match child v i with Some c => resolve c r | None => None end
+  end.
+
+Definition dvat (t : value) (p : ipath) : dv :=
+  match resolve t p with Some v => dv_of_value v | None => DNone end.
+
+Inductive sentry :=
+| ETc (key : pystr) (p1 p2 : ipath) (with_new_path with_value : bool)   (* type_changes[key] = {old_type, new_type[, new_path][, new_value]} *)
+| EVc (key : pystr) (p1 p2 : ipath) (with_new_path : bool)               (* values_changed[key] = {new_value[, new_path]} *)
+| EAt (side2 : bool) (key : pystr) (p : ipath)                            (* an added (t2) / removed (t1) item *)
+| ESet (side2 : bool) (key : pystr) (p : ipath) (members : list nat).     (* set_item_added / removed [key] = {members of the set at p} *)
+
+Inductive sblock :=
+| BPlain (cat : pystr) (es : list sentry)
+| BIdx (side2 : bool) (es : list (pystr * ipath * list (nat * nat))).     (* iterable_items_{added,removed}_at_indexes[key] = {index: item}; (index, identity) *)
+Definition sdelta := list sblock.
+
+Local Open Scope string_scope.
+Definition k_old_type := s2p "old_type".
+Definition k_new_type := s2p "new_type".
+Definition k_new_value := s2p "new_value".
+Local Close Scope string_scope.
+
+Definition side (t1 t2 : value) (side2 : bool) : value := if side2 then t2 else t1.
+
+Definition dv_of_entry (t1 t2 : value) (e : sentry) : dkey * nat * dv :=
+  match e with
+  | ETc key _ p2 wnp wv =>
+      (KStr key, O, DMap ([(KStr k_old_type, O, DType); (KStr k_new_type, O, DType)]
+                          ++ (if wnp then [(KStr k_new_path, O, DStr)] else [])
+                          ++ (if wv then [(KStr k_new_value, O, dvat t2 p2)] else [])))
+  | EVc key _ p2 wnp =>
+      (KStr key, O, DMap ((KStr k_new_value, O, dvat t2 p2) :: (if wnp then [(KStr k_new_path, O, DStr)] else [])))
+  | EAt s2 key p => (KStr key, O, dvat (side t1 t2 s2) p)
+  | ESet s2 key p ms => (KStr key, O, DSeq (map (fun j => dvat (side t1 t2 s2) (p ++ [j])) ms))
+  end.
+
+Definition dv_of_block (t1 t2 : value) (b : sblock) : dkey * nat * dv :=
+  match b with
+  | BPlain cat es => (KStr cat, O, DMap (map (dv_of_entry t1 t2) es))
+  | BIdx s2 es =>
+      (KStr (if s2 then k_added_at else k_removed_at), O,
+       DMap (map (fun e => let '(key, p, items) := e in
+                           (KStr key, O,
+                            DMap (map (fun ii => (KOther, snd ii, dvat (side t1 t2 s2) (p ++ [fst ii]))) items))) es))
+  end.
+
+Definition dv_of_sdelta (t1 t2 : value) (sd : sdelta) : dv := DMap (map (dv_of_block t1 t2) sd).
+
+(** positions consumed in t1 and in t2 *)
+Definition entry_pos (want2 : bool) (e : sentry) : list ipath :=
+  match e with
+  | ETc _ p1 p2 _ _ | EVc _ p1 p2 _ => [if want2 then p2 else p1]
+  | EAt s2 _ p => if Bool.eqb s2 want2 then [p] else []
+  | ESet s2 _ p ms => if Bool.eqb s2 want2 then map (fun j => p ++ [j]) ms else []
+  end.
+Definition block_pos (want2 : bool) (b : sblock) : list ipath :=
+  match b with
+  | BPlain _ es => flat_map (entry_pos want2) es
+  | BIdx s2 es => if Bool.eqb s2 want2
+                  then flat_map (fun e => let '(_, p, items) := e in map (fun ii => p ++ [fst ii]) items) es
+                  else []
+  end.
+Definition positions (want2 : bool) (sd : sdelta) : list ipath := flat_map (block_pos want2) sd.
+
+Fixpoint nat_prefix (p q : ipath) : bool :=
+  match p, q with
+  | [], _ => true
+  | i :: p', j :: q' => Nat.eqb i j && nat_prefix p' q'
+  | _ :: _, [] => false
+  end.
+Definition comparable (p q : ipath) : bool := nat_prefix p q || nat_prefix q p.
+Fixpoint pairwise_incomparable (l : list ipath) : bool :=
+  match l with
+  | [] => true
+  | p :: r => forallb (fun q => negb (comparable p q)) r && pairwise_incomparable r
+  end.
+
+(* keys: a path key is the string "root..."; a report key is a str that the key filter keeps and that is not a dedupe key *)
+Local Open Scope string_scope.
+Definition path_key_ok (k : pystr) : bool := is_prefix (s2p "root") k.
+Local Close Scope string_scope.
+Definition cat_key_ok (k : pystr) : bool :=
+  negb (is_dedupe_key (KStr k)) && match key_skip (KStr k) with Some false => true | _ => false end.
+Definition entry_key (e : sentry) : pystr :=
+  match e with ETc k _ _ _ _ | EVc k _ _ _ | EAt _ k _ | ESet _ k _ _ => k end.
+Definition block_keys_ok (b : sblock) : bool :=
+  match b with
+  | BPlain cat es => cat_key_ok cat && forallb (fun e => path_key_ok (entry_key e)) es
+  | BIdx _ es => forallb (fun e => path_key_ok (fst (fst e))) es
+  end.
+
+(* validity of a structured delta: well-formed keys, and the reported
+   positions are pairwise disjoint sub-trees of t1 resp. t2 *)
+Definition sd_valid (sd : sdelta) : bool :=
+  forallb block_keys_ok sd
+  && pairwise_incomparable (positions false sd)
+  && pairwise_incomparable (positions true sd).
+
+Definition cnt (t : value) (p : ipath) : nat :=
+  match resolve t p with Some v => count v | None => 0 end.
+Definition len_at (t : value) (p : ipath) : option nat :=
+  match item_length (dvat t p) with LOk n => Some n | LErr _ => None end.
+
+(* the guard of the range theorem: every type change can pay for the 2 + len(new_value)
+   operations it is charged with the item lengths of its two values *)
+Definition tc_entry_ok (t1 t2 : value) (e : sentry) : bool :=
+  match e with
+  | ETc _ p1 p2 _ wv =>
+      match (if wv then len_at t2 p2 else Some 0) with
+      | Some l => Nat.leb (2 + l) (cnt t1 p1 + cnt t2 p2)
+      | None => true
+      end
+  | _ => true
+  end.
+Definition tc_guard (t1 t2 : value) (sd : sdelta) : bool :=
+  forallb (fun b => match b with BPlain _ es => forallb (tc_entry_ok t1 t2) es | BIdx _ _ => true end) sd.
+
+(* comparison of two dv trees that ignores the identity tags *)
+Definition dkey_eqb (a b : dkey) : bool :=
+  match a, b with
+  | KStr s, KStr t | KBytes s, KBytes t => pystr_eqb s t
+  | KOther, KOther => true
+  | _, _ => false
+  end.
+Fixpoint dv_eqb (a b : dv) {struct a} : bool :=
+  match a, b with
+  | DNone, DNone | DNum, DNum | DStr, DStr | DType, DType => true
+  | DSeq xs, DSeq ys =>
+      (fix go (xs ys : list dv) {struct xs} : bool :=
+         match xs, ys with
+         | [], [] => true
+         | x :: xs', y :: ys' => dv_eqb x y && go xs' ys'
+         | _, _ => false
+         end) xs ys
+  | DMap xs, DMap ys =>
+      (fix go (xs ys : list (dkey * nat * dv)) {struct xs} : bool :=
+         match xs, ys with
+         | [], [] => true
+         | (k, _, x) :: xs', (k', _, y) :: ys' => dkey_eqb k k' && dv_eqb x y && go xs' ys'
+         | _, _ => false
+         end) xs ys
+  | _, _ => false
   end.
